@@ -74,6 +74,7 @@ impl Check for C01 {
                 return;
             }
             out.inc("patterns");
+            out.shape = parsed.ast.shape();
             for flags in FLAG_SUBSETS_IMS {
                 let fl = Fl::parse(flags);
                 out.pin(&|| format!("compile {:?} {:?}", text, flags));
